@@ -113,6 +113,17 @@ ENTRY(c13_normalize){
   Mat<S,2,1> c; c<<R.var("re",1.3),R.var("im",-0.2); R.assume(S(0.0),0,c.squaredNorm());
   manif::SO2<S> B; B.coeffs()=c; B.normalize(); R.eq("so2",B.coeffs().squaredNorm(),S(1.0));
 }
+// normalize() of the composite groups: the rotation block becomes exactly unit for ANY non-zero data (no magnitude bound), its
+// direction is kept, and the linear blocks are untouched
+ENTRY(c13_normalize_composite){
+  Mat<S,4,1> q; q<<R.var("qx",0.3),R.var("qy",-0.8),R.var("qz",1.7),R.var("qw",0.4); R.assume(S(0.0),0,q.squaredNorm());
+  Mat<S,2,1> c; c<<R.var("re",1.3),R.var("im",-0.2); R.assume(S(0.0),0,c.squaredNorm());
+  Mat<S,3,1> t=vec3(R,"t",WV[0]), v=vec3(R,"v",WV[1]); S tt=R.var("time",0.75);
+  { manif::SE2<S> A; A.coeffs()<<t(0),t(1),c(0),c(1); A.normalize(); R.eq("se2",A.coeffs().template tail<2>().squaredNorm(),S(1.0)); R.eq("se2.dir",A.coeffs()(2)*c(1),A.coeffs()(3)*c(0)); R.eq("se2.x",A.coeffs()(0),t(0)); R.eq("se2.y",A.coeffs()(1),t(1)); }
+  { manif::SE3<S> A; A.coeffs().template head<3>()=t; A.coeffs().template tail<4>()=q; A.normalize(); R.eq("se3",A.coeffs().template tail<4>().squaredNorm(),S(1.0)); for(int i=0;i<3;i++){ R.eq("se3.dir"+std::to_string(i),A.coeffs()(3+i)*q(3),A.coeffs()(6)*q(i)); R.eq("se3.t"+std::to_string(i),A.coeffs()(i),t(i)); } }
+  { manif::SE_2_3<S> A; A.coeffs().template head<3>()=t; A.coeffs().template segment<4>(3)=q; A.coeffs().template tail<3>()=v; A.normalize(); R.eq("se23",A.coeffs().template segment<4>(3).squaredNorm(),S(1.0)); for(int i=0;i<3;i++){ R.eq("se23.dir"+std::to_string(i),A.coeffs()(3+i)*q(3),A.coeffs()(6)*q(i)); R.eq("se23.t"+std::to_string(i),A.coeffs()(i),t(i)); R.eq("se23.v"+std::to_string(i),A.coeffs()(7+i),v(i)); } }
+  { manif::SGal3<S> A; A.coeffs().template head<3>()=t; A.coeffs().template segment<4>(3)=q; A.coeffs().template segment<3>(7)=v; A.coeffs()(10)=tt; A.normalize(); R.eq("sgal3",A.coeffs().template segment<4>(3).squaredNorm(),S(1.0)); for(int i=0;i<3;i++){ R.eq("sgal3.dir"+std::to_string(i),A.coeffs()(3+i)*q(3),A.coeffs()(6)*q(i)); R.eq("sgal3.t"+std::to_string(i),A.coeffs()(i),t(i)); R.eq("sgal3.v"+std::to_string(i),A.coeffs()(7+i),v(i)); } R.eq("sgal3.time",A.coeffs()(10),tt); }
+}
 // validation: (DEBUG build) data within the acceptance threshold is never rejected / data outside always is; (NDEBUG) nothing is rejected
 #ifndef VALID_MODE
 #define VALID_MODE 0   /* 0: inside threshold, 1: outside (norm too large), 2: outside (norm too small) */
